@@ -450,7 +450,19 @@ class TermEval:
         kwargs = {}
         for k in node.keywords:
             if k.arg is None:
-                raise ExtractionError("**kwargs in call")
+                # **mapping: accepted when the mapping is a dict display with constant string keys
+                mapping = self.ev(k.value, env, fn, depth)
+                if not isinstance(mapping, DictV):
+                    raise ExtractionError("**kwargs in call (not a literal dict)")
+                for kk, vv in mapping.items:
+                    if not (isinstance(kk, Opaque) and isinstance(kk.key, str)):
+                        raise ExtractionError("**kwargs with non-constant keys")
+                    if kk.key in kwargs:
+                        raise ExtractionError(f"keyword {kk.key} given twice")
+                    kwargs[kk.key] = vv
+                continue
+            if k.arg in kwargs:
+                raise ExtractionError(f"keyword {k.arg} given twice")
             kwargs[k.arg] = self.ev(k.value, env, fn, depth)
         return args, kwargs
 
